@@ -256,11 +256,14 @@ def parse_auto(ans):
         if f[1] == "unsupported":
             return obs("unsupported")
         k = f[1].split(";")[0].split(":")[-1]
-        return obs({"two-nulls": "two-nulls", "unbalanced": "unbalanced", "null-amount": "null"}.get(k, "other:" + k))
+        return obs({"two-nulls": "two-nulls", "unbalanced": "unbalanced", "null-amount": "null",
+                    "same-comm-cost": "same-comm-cost"}.get(k, "other:" + k))
     rows, krows = [], []
     for r in (f[1].split(";") if len(f) > 1 and f[1] else []):
-        _xl, _pl, acct, kind, amt = r.split("|")[:5]
+        # xact line|posting line|account|kind|state|q:prec:keep:comm|cost|note|generated|calculated
+        _xl, _pl, acct, kind, _state, amt = r.split("|")[:6]
         q, prec, _keep, comm = amt.split(":", 3)
+        comm = comm.split("{")[0]          # C16 annotates a posting that has a cost with its lot: compare base symbols
         rows.append((acct, norm_q(q), comm))
         krows.append((acct, kind, norm_q(q), prec, comm))
     return obs("ok", rows, krows)
